@@ -52,6 +52,7 @@ let run_case (reqs : string) : string =
 let handle (line : string) : string =
   match split_on ' ' line with
   | ["Q"; reqs] -> run_case reqs
+  | ["QP"; reqs] -> run_case reqs        (* same exchange; the harness paces the delivery of the response pieces *)
   | _ -> "BADCASE"
 
 let () = run_cases handle
